@@ -16,14 +16,15 @@
 package main
 
 import (
+	"bytes"
 	"context"
+	"encoding/json"
 	"fmt"
 	"io"
 	"log/slog"
 	"math"
 	"os"
-	"runtime/debug"
-	"runtime/pprof"
+	"os/exec"
 	"sort"
 	"strings"
 	"time"
@@ -132,6 +133,16 @@ type tcase struct {
 	Perm   []int // indexing order: position p indexes Corpus[Perm[p]]
 	Blocks []int // block sizes (transactions)
 	Idx    int
+	Fresh  bool // also search from a brand-new OS process
+}
+
+func allSingletons(bl []int) bool {
+	for _, b := range bl {
+		if b != 1 {
+			return false
+		}
+	}
+	return len(bl) >= 2
 }
 
 // tokenSig is the corpus' content as the index can see it: the multiset of per-document token multisets.
@@ -172,50 +183,56 @@ func allCorpora(nd int) [][]int {
 	return corpora
 }
 
+// partitionKey is the canonical form of an ordered partition: blocks in order, members sorted.
+func partitionKey(p, bl []int) string {
+	var key []string
+	q := 0
+	for _, sz := range bl {
+		m := append([]int(nil), p[q:q+sz]...)
+		sort.Ints(m)
+		key = append(key, fmt.Sprint(m))
+		q += sz
+	}
+	return strings.Join(key, "|")
+}
+
 // enumerate lists the index cases.
-// quick: one corpus per token-content class (the LAST corpus of the class in enumeration order, which
-// is the one using the stop word most), one document order per corpus (rotating), every composition.
-// thorough: every corpus, every ordered partition of its documents into 1..3 transactions.
+// A class representative is the LAST corpus (in enumeration order) of its token-content class, i.e. the
+// member using the stop word most.
+// quick:    class representatives x one document order (rotating) x every composition.
+// thorough: EVERY corpus x one document order (rotating) x every composition, plus, for the class
+//
+//	representatives, every remaining ordered partition of the documents into 1..3 transactions
+//	(13 in total for 3 documents).
 func enumerate(thorough bool) []tcase {
 	docs := allDocs()
 	corpora := allCorpora(len(docs))
-	var out []tcase
-	if !thorough {
-		last := map[string]int{}
-		for ci, c := range corpora {
-			last[tokenSig(docs, c)] = ci
-		}
-		k := 0
-		for ci, c := range corpora {
-			if last[tokenSig(docs, c)] != ci {
-				continue
-			}
-			ps := permsOf(len(c))
-			p := ps[k%len(ps)]
-			k++
-			for _, bl := range compositions(len(c)) {
-				out = append(out, tcase{Corpus: c, Perm: p, Blocks: bl, Idx: len(out)})
-			}
-		}
-		return out
-	}
+	last := map[string]int{}
 	for ci, c := range corpora {
+		last[tokenSig(docs, c)] = ci
+	}
+	var out []tcase
+	k := 0
+	for ci, c := range corpora {
+		rep := last[tokenSig(docs, c)] == ci
+		if !rep && !thorough {
+			continue
+		}
 		ps := permsOf(len(c))
+		p0 := k % len(ps)
+		k++
 		seen := map[string]bool{}
-		// start from a different permutation per corpus so that the order inside a transaction varies
+		for _, bl := range compositions(len(c)) {
+			seen[partitionKey(ps[p0], bl)] = true
+			out = append(out, tcase{Corpus: c, Perm: ps[p0], Blocks: bl, Idx: len(out), Fresh: rep && allSingletons(bl)})
+		}
+		if !thorough || !rep {
+			continue
+		}
 		for pi := range ps {
-			p := ps[(pi+ci)%len(ps)]
+			p := ps[(p0+pi)%len(ps)]
 			for _, bl := range compositions(len(c)) {
-				// canonical form of the ordered partition: blocks in order, members sorted
-				var key []string
-				q := 0
-				for _, sz := range bl {
-					m := append([]int(nil), p[q:q+sz]...)
-					sort.Ints(m)
-					key = append(key, fmt.Sprint(m))
-					q += sz
-				}
-				ks := strings.Join(key, "|")
+				ks := partitionKey(p, bl)
 				if seen[ks] {
 					continue
 				}
@@ -317,49 +334,120 @@ func queryKind(q []int) string {
 
 // ---- one case on the implementation ----
 
+type placed struct {
+	ID   string `json:"id"`
+	Text string `json:"text"`
+	Tx   int    `json:"tx"`
+}
+
 type worker struct {
 	run     *ev.Run
 	base    string
 	tk      search.SimpleTokenizer
 	docs    []doc
 	queries [][]int
-	coldToo bool
 }
 
-func (w *worker) txOpts(dir string, mode sop.TransactionMode) sop.TransactionOptions {
+func txOpts(dir string, mode sop.TransactionMode) sop.TransactionOptions {
 	return sop.TransactionOptions{Mode: mode, StoresFolders: []string{dir}, CacheType: sop.InMemory}
 }
 
 func (w *worker) runCase(c tcase) {
-	run := w.run
-	dir := fmt.Sprintf("%s/c%d", w.base, c.Idx)
-	os.RemoveAll(dir)
-	defer os.RemoveAll(dir)
-	detuuid.Reset(uint64(c.Idx) + 1)
-	dbo := sop.DatabaseOptions{StoresFolders: []string{dir}}
-
-	type placed struct {
-		ID, Text string
-		Tx       int
-	}
 	var plan []placed
-	{
-		p := 0
-		for tx, sz := range c.Blocks {
-			for k := 0; k < sz; k++ {
-				d := w.docs[c.Corpus[c.Perm[p]]]
-				plan = append(plan, placed{ID: docIDs[p], Text: d.text(c.Idx + p), Tx: tx})
-				p++
+	p := 0
+	for tx, sz := range c.Blocks {
+		for k := 0; k < sz; k++ {
+			d := w.docs[c.Corpus[c.Perm[p]]]
+			plan = append(plan, placed{ID: docIDs[p], Text: d.text(c.Idx + p), Tx: tx})
+			p++
+		}
+	}
+	w.runPlan(plan, len(c.Blocks), c.Idx, c.Fresh)
+	if c.Idx%20011 == 7 {
+		w.run.Sample(map[string]any{"docs": plan, "transactions": len(c.Blocks), "queries": len(w.queries), "fresh_process_pass": c.Fresh})
+	}
+}
+
+type queryResult struct {
+	R []search.TextSearchResult `json:"r"`
+	E string                    `json:"e,omitempty"`
+}
+
+// searchAll opens the index in a new reading transaction and runs every query.
+func searchAll(dir string, queries [][]int, salt int) ([]queryResult, string) {
+	t, err := infs.NewTransaction(ctx, txOpts(dir, sop.ForReading))
+	if err != nil {
+		return nil, "NewTransaction(read): " + err.Error()
+	}
+	if err := t.Begin(ctx); err != nil {
+		return nil, "Begin(read): " + err.Error()
+	}
+	idx, err := search.NewIndex(ctx, sop.DatabaseOptions{StoresFolders: []string{dir}}, t, "ix")
+	if err != nil {
+		return nil, "NewIndex in the reading transaction: " + err.Error()
+	}
+	out := make([]queryResult, len(queries))
+	for qi, q := range queries {
+		got, err := idx.Search(ctx, queryText(q, salt+qi))
+		out[qi].R = got
+		if err != nil {
+			out[qi].E = "error: " + err.Error()
+		}
+		for _, r := range got {
+			if math.IsNaN(r.Score) || math.IsInf(r.Score, 0) {
+				out[qi].E = fmt.Sprintf("non-finite score for %q: %v", r.DocID, r.Score)
+				out[qi].R = nil
 			}
 		}
 	}
-	replay := map[string]any{"docs": plan, "transactions": len(c.Blocks)}
-	sigClass := fmt.Sprintf("ndocs=%d|ntx=%d", len(plan), len(c.Blocks))
+	if err := t.Commit(ctx); err != nil {
+		return out, "Commit of the reading transaction: " + err.Error()
+	}
+	return out, ""
+}
+
+// searchAllFresh does the same in a brand-new OS process (no L1/L2 cache content from the writers).
+func searchAllFresh(dir string, salt int) ([]queryResult, string) {
+	cmd := exec.Command(os.Args[0], "C32")
+	cmd.Env = append(os.Environ(), "C32_CHILD_DIR="+dir, fmt.Sprint("C32_CHILD_SALT=", salt), "VERIF_JOB=", "GOMAXPROCS=2")
+	var stderr bytes.Buffer
+	cmd.Stderr = &stderr
+	b, err := cmd.Output()
+	if err != nil {
+		return nil, fmt.Sprintf("fresh search process failed: %v: %s", err, stderr.String())
+	}
+	var res struct {
+		Q   []queryResult
+		Err string
+	}
+	if err := json.Unmarshal(b, &res); err != nil {
+		return nil, fmt.Sprintf("fresh search process produced unreadable output: %v: %.300s", err, b)
+	}
+	return res.Q, res.Err
+}
+
+func childSearch() {
+	var salt int
+	fmt.Sscan(os.Getenv("C32_CHILD_SALT"), &salt)
+	q, e := searchAll(os.Getenv("C32_CHILD_DIR"), allQueries(), salt)
+	b, _ := json.Marshal(map[string]any{"Q": q, "Err": e})
+	os.Stdout.Write(b)
+	os.Exit(0)
+}
+
+func (w *worker) runPlan(plan []placed, ntxDeclared int, salt int, fresh bool) {
+	run := w.run
+	dir := fmt.Sprintf("%s/c%d", w.base, salt)
+	os.RemoveAll(dir)
+	defer os.RemoveAll(dir)
+	detuuid.Reset(uint64(salt) + 1)
+	l2 := sop.GetL2Cache(txOpts(dir, sop.ForReading))
+	defer l2.Clear(ctx) // keep the process-wide in-memory L2 cache small
+	dbo := sop.DatabaseOptions{StoresFolders: []string{dir}}
+
+	sigClass := fmt.Sprintf("ndocs=%d|ntx=%d", len(plan), ntxDeclared)
 	fail := func(kind, detail string, extra map[string]any) {
-		r := map[string]any{}
-		for k, v := range replay {
-			r[k] = v
-		}
+		r := map[string]any{"docs": plan, "transactions": ntxDeclared, "salt": salt}
 		for k, v := range extra {
 			r[k] = v
 		}
@@ -367,13 +455,13 @@ func (w *worker) runCase(c tcase) {
 	}
 
 	// index
-	ntx := len(c.Blocks)
+	ntx := ntxDeclared
 	if ntx == 0 {
 		ntx = 1 // empty corpus: create the index in one transaction with no document
 	}
 	p := 0
 	for tx := 0; tx < ntx; tx++ {
-		t, err := infs.NewTransaction(ctx, w.txOpts(dir, sop.ForWriting))
+		t, err := infs.NewTransaction(ctx, txOpts(dir, sop.ForWriting))
 		if err != nil {
 			fail("harness-error", "NewTransaction: "+err.Error(), nil)
 			return
@@ -400,6 +488,8 @@ func (w *worker) runCase(c tcase) {
 			return
 		}
 	}
+	run.Add("index_cases", 1)
+	run.Add("commits", int64(ntx))
 
 	// reference statistics, from the tokenizer output only
 	var rdocs []refDoc
@@ -412,42 +502,41 @@ func (w *worker) runCase(c tcase) {
 		rdocs = append(rdocs, refDoc{id: pl.ID, tf: tf, dlen: len(toks)})
 	}
 
-	passes := []string{"warm"}
-	if w.coldToo {
-		passes = append(passes, "cold")
+	passes := []string{"same-process"}
+	if fresh {
+		passes = append(passes, "fresh-process")
 	}
 	for _, pass := range passes {
-		if pass == "cold" {
-			// forget everything cached by the writers: statistics must come from what was persisted
-			sop.GetL2Cache(w.txOpts(dir, sop.ForReading)).Clear(ctx)
+		var results []queryResult
+		var perr string
+		if pass == "same-process" {
+			results, perr = searchAll(dir, w.queries, salt)
+		} else {
+			results, perr = searchAllFresh(dir, salt)
+			run.Add("fresh_process_passes", 1)
 		}
-		t, err := infs.NewTransaction(ctx, w.txOpts(dir, sop.ForReading))
-		if err != nil {
-			fail("harness-error", "NewTransaction(read): "+err.Error(), nil)
-			return
+		if perr != "" {
+			fail("search-error", pass+": "+perr, map[string]any{"pass": pass})
+			if results == nil {
+				continue
+			}
 		}
-		if err := t.Begin(ctx); err != nil {
-			fail("harness-error", "Begin(read): "+err.Error(), nil)
-			return
-		}
-		idx, err := search.NewIndex(ctx, dbo, t, "ix")
-		if err != nil {
-			fail("search-error", "NewIndex in the reading transaction: "+err.Error(), nil)
-			return
+		if len(results) != len(w.queries) {
+			fail("harness-error", fmt.Sprintf("%s: %d results for %d queries", pass, len(results), len(w.queries)), nil)
+			continue
 		}
 		for qi, q := range w.queries {
-			qt := queryText(q, c.Idx+qi)
-			qToks := w.tk.Tokenize(qt)
-			want := reference(rdocs, qToks)
-			got, err := idx.Search(ctx, qt)
+			qt := queryText(q, salt+qi)
+			want := reference(rdocs, w.tk.Tokenize(qt))
+			got := results[qi].R
 			run.Add("evaluations", 1)
 			if len(want) > 0 {
 				run.Add("distinct_nontrivial", 1)
 			}
 			kind := queryKind(q)
 			ex := map[string]any{"query": qt, "pass": pass}
-			if err != nil {
-				fail("search-error|q="+kind, fmt.Sprintf("Search(%q) error: %v", qt, err), ex)
+			if results[qi].E != "" {
+				fail("search-error|q="+kind, fmt.Sprintf("Search(%q) [%s] %s", qt, pass, results[qi].E), ex)
 				continue
 			}
 			seen := map[string]int{}
@@ -455,18 +544,18 @@ func (w *worker) runCase(c tcase) {
 				seen[r.DocID]++
 			}
 			bad := false
-			for id, n := range seen {
-				if _, ok := want[id]; !ok {
-					fail("extra-doc|q="+kind, fmt.Sprintf("Search(%q) returned %q which contains no query term; got=%v want=%v", qt, id, got, want), ex)
+			for _, r := range got { // in result order: deterministic reporting
+				if _, ok := want[r.DocID]; !ok {
+					fail("extra-doc|q="+kind, fmt.Sprintf("Search(%q) [%s] returned %q which contains no query term; got=%v want=%v", qt, pass, r.DocID, got, want), ex)
 					bad = true
-				} else if n > 1 {
-					fail("duplicate-doc|q="+kind, fmt.Sprintf("Search(%q) returned %q %d times; got=%v", qt, id, n, got), ex)
+				} else if seen[r.DocID] > 1 {
+					fail("duplicate-doc|q="+kind, fmt.Sprintf("Search(%q) [%s] returned %q %d times; got=%v", qt, pass, r.DocID, seen[r.DocID], got), ex)
 					bad = true
 				}
 			}
-			for id := range want {
-				if seen[id] == 0 {
-					fail("missing-doc|q="+kind, fmt.Sprintf("Search(%q) did not return %q which contains a query term; got=%v want=%v", qt, id, got, want), ex)
+			for _, d := range rdocs {
+				if _, ok := want[d.id]; ok && seen[d.id] == 0 {
+					fail("missing-doc|q="+kind, fmt.Sprintf("Search(%q) [%s] did not return %q which contains a query term; got=%v want=%v", qt, pass, d.id, got, want), ex)
 					bad = true
 				}
 			}
@@ -475,27 +564,17 @@ func (w *worker) runCase(c tcase) {
 			}
 			for i, r := range got {
 				ref := want[r.DocID]
-				if math.IsNaN(r.Score) || math.Abs(r.Score-ref) > 1e-9*math.Abs(ref) {
-					fail("score|q="+kind, fmt.Sprintf("Search(%q): score of %q = %.15g, reference BM25 = %.15g; got=%v want=%v", qt, r.DocID, r.Score, ref, got, want), ex)
+				if math.Abs(r.Score-ref) > 1e-9*math.Abs(ref) {
+					fail("score|q="+kind, fmt.Sprintf("Search(%q) [%s]: score of %q = %.15g, reference BM25 = %.15g; got=%v want=%v", qt, pass, r.DocID, r.Score, ref, got, want), ex)
 					break
 				}
 				if i > 0 && got[i-1].Score < r.Score {
-					fail("order|q="+kind, fmt.Sprintf("Search(%q): results not in non-increasing score order: %v", qt, got), ex)
+					fail("order|q="+kind, fmt.Sprintf("Search(%q) [%s]: results not in non-increasing score order: %v", qt, pass, got), ex)
 					break
 				}
 			}
 		}
-		if err := t.Commit(ctx); err != nil {
-			fail("search-error", "Commit of the reading transaction: "+err.Error(), nil)
-		}
 	}
-	run.Add("index_cases", 1)
-	run.Add("commits", int64(ntx))
-	if c.Idx%20011 == 7 {
-		run.Sample(map[string]any{"docs": plan, "transactions": len(c.Blocks), "queries": len(w.queries)})
-	}
-	// keep the process-wide in-memory L2 cache small
-	sop.GetL2Cache(w.txOpts(dir, sop.ForReading)).Clear(ctx)
 }
 
 // tokenizerChecks: the exported tokenizer over every word sequence of <= 3 (documents) / <= 2
@@ -538,36 +617,75 @@ func tokenizerChecks(run *ev.Run) {
 const nJobs = 97
 
 func main() {
-	if g := os.Getenv("C32_GC"); g != "" {
-		var n int
-		fmt.Sscan(g, &n)
-		debug.SetGCPercent(n)
-	}
 	slog.SetDefault(slog.New(slog.NewTextHandler(io.Discard, &slog.HandlerOptions{Level: slog.LevelError + 4})))
+	if os.Getenv("C32_CHILD_DIR") != "" {
+		childSearch()
+	}
 	run := ev.New("C32", "exploration")
 	thorough := run.Thorough()
+
+	// --replay <file>: re-run the single case stored in a replay artefact (both search passes)
+	for i, a := range os.Args {
+		if a == "--replay" && i+1 < len(os.Args) {
+			raw, err := os.ReadFile(os.Args[i+1])
+			var art struct {
+				Replay struct {
+					Docs         []placed `json:"docs"`
+					Transactions int      `json:"transactions"`
+					Salt         int      `json:"salt"`
+				} `json:"replay"`
+			}
+			if err == nil {
+				err = json.Unmarshal(raw, &art)
+			}
+			if err != nil {
+				fmt.Fprintln(os.Stderr, "cannot use replay artefact:", err)
+				os.Exit(2)
+			}
+			w := &worker{run: run, base: fmt.Sprintf("/dev/shm/c32_%d_replay", os.Getpid()), docs: allDocs(), queries: allQueries()}
+			os.MkdirAll(w.base, 0o755)
+			w.runPlan(art.Replay.Docs, art.Replay.Transactions, art.Replay.Salt, true)
+			os.RemoveAll(w.base)
+			run.Set("rule", "replay of one stored index case, all queries, both search passes")
+			run.Finish()
+		}
+	}
+
 	cases := enumerate(thorough)
+	if mc := os.Getenv("C32_MAXCASES"); mc != "" {
+		// debugging / mutation-testing aid: only an evenly strided subset of the enumeration
+		var n int
+		fmt.Sscan(mc, &n)
+		if n > 0 && n < len(cases) {
+			var sub []tcase
+			for i := 0; i < n; i++ {
+				sub = append(sub, cases[i*len(cases)/n])
+			}
+			cases = sub
+			if ev.Job() == "" {
+				run.NotExhaustive("C32_MAXCASES set: only " + mc + " index cases run")
+			}
+		}
+	}
 
 	if job := ev.Job(); job != "" {
 		var j int
 		fmt.Sscan(job, &j)
-		w := &worker{run: run, base: fmt.Sprintf("/dev/shm/c32_%d_%d", os.Getpid(), j), docs: allDocs(), queries: allQueries(), coldToo: thorough}
+		var deadline int64
+		fmt.Sscan(os.Getenv("C32_DEADLINE"), &deadline)
+		w := &worker{run: run, base: fmt.Sprintf("/dev/shm/c32_%d_%d", os.Getpid(), j), docs: allDocs(), queries: allQueries()}
 		os.MkdirAll(w.base, 0o755)
-		defer os.RemoveAll(w.base)
 		if j == 0 {
 			tokenizerChecks(run)
 		}
-		if pf := os.Getenv("C32_PROF"); pf != "" {
-			f, _ := os.Create(pf)
-			pprof.StartCPUProfile(f)
-			defer pprof.StopCPUProfile()
-			cases = cases[:20000]
-		}
 		for i := j; i < len(cases); i += nJobs {
+			if deadline > 0 && time.Now().Unix() > deadline {
+				run.NotExhaustive(fmt.Sprintf("global time budget reached in job %d at case %d of %d", j, i, len(cases)))
+				break
+			}
 			w.runCase(cases[i])
 		}
 		os.RemoveAll(w.base)
-		pprof.StopCPUProfile()
 		run.EmitPartial()
 	}
 
@@ -575,11 +693,12 @@ func main() {
 	for j := 0; j < nJobs; j++ {
 		jobs = append(jobs, fmt.Sprint(j))
 	}
-	dl := 10 * time.Minute
+	budget := 12 * time.Minute
 	if thorough {
-		dl = 60 * time.Minute
+		budget = 50 * time.Minute
 	}
-	run.Parallel(jobs, 0, dl, nil)
+	os.Setenv("C32_DEADLINE", fmt.Sprint(time.Now().Add(budget).Unix()))
+	run.Parallel(jobs, 0, budget+5*time.Minute, nil)
 
 	// measured description of the enumerated space
 	corp := map[string]bool{}
@@ -597,18 +716,23 @@ func main() {
 	run.Set("queries_per_case", len(allQueries()))
 	dom := "domain: corpus = set of <=3 distinct documents, document = multiset of <=3 words from {ab,abc,zed,the(stop word),Ünï} (56 documents, 29317 corpora); "
 	qry := "; then, in a fresh reading transaction, every query of <=2 words from {ab,abc,zed,the,Ünï,nope(unknown)} plus AB, 'AB ab', 'abc AB' (46 incl. the empty query)"
-	tail := ". evaluations = (index case, pass, query) triples, all distinct by construction; non-trivial = the reference result set is non-empty"
+	tail := ". evaluations = (index case, search pass, query) triples, all distinct by construction; non-trivial = the reference result set is non-empty"
 	if thorough {
-		run.Set("rule", dom+"EVERY corpus x EVERY ordered partition of its documents into 1..3 committed infs transactions (13 for 3 documents; the order inside a transaction rotates with the corpus number)"+qry+", once with the caches left by the writers and once after clearing the L2 cache"+tail)
+		run.Set("rule", dom+"(a) EVERY corpus, one document order (rotating through all orders), x every composition of the documents into 1..3 committed infs transactions; (b) for one corpus per token-content class (corpora whose documents tokenize to the same multiset of token multisets; representative = the member using the stop word most) additionally every other ordered partition of its documents into 1..3 transactions (13 in total for 3 documents)"+qry+"; the one-document-per-transaction cases of the class representatives are searched a second time from a brand-new OS process (nothing cached)"+tail)
 	} else {
-		run.Set("rule", dom+"one corpus per token-content class (corpora whose documents tokenize to the same multiset of token multisets are merged; the representative is the member using the stop word most), one document order per corpus (rotating through all orders), x every composition of the documents into 1..3 committed infs transactions"+qry+tail)
+		run.Set("rule", dom+"one corpus per token-content class (corpora whose documents tokenize to the same multiset of token multisets are merged; the representative is the member using the stop word most), one document order per corpus (rotating through all orders), x every composition of the documents into 1..3 committed infs transactions"+qry+"; the one-document-per-transaction cases are searched a second time from a brand-new OS process (nothing cached)"+tail)
 	}
 	run.Assumption("reference BM25: k1=1.2, b=0.75, idf=ln((N-n+0.5)/(n+0.5)+1), score(d)=sum over query TOKENS (a repeated query term counts twice) of idf*f*(k1+1)/(f+k1*(1-b+b*len(d)/avglen)); N counts every indexed document including those with no tokens")
 	run.Assumption("documents are enumerated as word multisets: Index.Add sees the text only through Tokenize(text) and reduces it to a Go map of frequencies (iteration order random by language definition), so word order cannot be observed; the tokenizer itself is checked over all word sequences and separators (tokenizer_cases)")
+	d1 := "dedupe 1 (token content): Index.Add(docID,text) uses text only as Tokenize(text), so two corpora whose documents have pairwise equal token lists drive the index identically; tokenizer_cases verifies Tokenize on every text. Corpora with several documents of equal token content exist only thanks to the stop word and are kept as their own classes"
+	d2 := "dedupe 2 (document order / which document goes to which transaction): the committed index content is a commutative function of the (docID, tokens) pairs — distinct-key B-tree inserts and integer sums — and with <= 9 postings every index B-tree is a single node (slot length 5000) whose slots are sorted by key whatever the insertion order"
 	if !thorough {
-		run.Assumption("quick-tier dedupe 1 (token content): Index.Add(docID,text) uses text only as Tokenize(text), so two corpora whose documents have pairwise equal token lists drive the index identically; tokenizer_cases verifies Tokenize on every text. Corpora with several documents of equal token content exist only thanks to the stop word and are kept as their own classes")
-		run.Assumption("quick-tier dedupe 2 (document order / which document goes to which transaction): the committed index content is a commutative function of the (docID, tokens) pairs — distinct-key B-tree inserts and integer sums — and with <= 9 postings every index B-tree is a single node (slot length 5000) whose slots are sorted by key whatever the insertion order. The thorough tier drops both dedupes (every corpus, every ordered partition) and thereby validates these arguments")
+		run.Assumption("quick-tier " + d1)
+		run.Assumption("quick-tier " + d2 + ". The thorough tier validates dedupe 1 by running every corpus and dedupe 2 by running every ordered partition for every token-content class")
+	} else {
+		run.Assumption("thorough tier: every corpus is run (no dedupe 1) in every composition; all 13 ordered partitions are run per token-content class only — " + d1)
 	}
+	_ = d2
 	run.Assumption("index B-trees stay single-node (NewIndex hard-codes slot length 5000), so the postings prefix scan across node boundaries is not exercised here (cursor placement after a miss is covered on multi-node trees by C18)")
 	run.Finish()
 }
